@@ -306,7 +306,7 @@ func (tb *TB) buildSystem(facts []Atom, at *ssa.BasicBlock, withPhi bool) *dsys 
 									}
 								}
 								sym, off := linear(tb.Term(c))
-								s.le(sym, "0", k-lo-off) // sym+off <= k-lo
+								s.le(sym, "0", k-lo-off)   // sym+off <= k-lo
 								s.le("0", sym, off-(k-hi)) // sym+off >= k-hi
 							}
 						}
